@@ -1018,6 +1018,39 @@ func ruleIndexValuesUTF8Safe(c *Ctx, rule string) {
 		}
 		return ok
 	}
+	// the response id goes through the same index: the id function's results must survive JSON too (numbers and
+	// constants aside, the URL key it starts with is request bytes)
+	if sr := c.A.F("storeResp"); sr != nil {
+		var idFns []*ssa.Function
+		instrsOf(sr, func(in ssa.Instruction) {
+			if !c.An.CallsRole(in, "writeEntry") {
+				return
+			}
+			_, args := recvAndArgs(callOf(in))
+			c.P.TraceBack(args[0], TraceOpts{NoParams: true, NoHeapFields: true}, func(v ssa.Value, _ []int) bool {
+				if call, ok := v.(*ssa.Call); ok && call.Call.IsInvoke() {
+					for _, cal := range c.P.Callees(call) {
+						for _, t := range append([]*ssa.Function{cal}, c.An.AdapterTargets(cal)...) {
+							if c.P.IsRepoFunc(t) && len(t.Blocks) > 0 && c.An.AdapterTargets(t) == nil {
+								idFns = append(idFns, t)
+							}
+						}
+					}
+					return false
+				}
+				return true
+			})
+		})
+		for _, idf := range idFns {
+			why = ""
+			if safeFn(idf, 0) {
+				c.Pass(rule, "index-id-utf8-safe fn="+c.P.ShortName(idf), "the response id recorded in the JSON index survives the encoding", c.P.ShortName(idf))
+			} else {
+				c.Fail(rule, "index-id-utf8-safe fn="+c.P.ShortName(idf), "the response id recorded in the JSON index survives the encoding", c.P.ShortName(idf)+": the id contains request bytes that were never checked for valid UTF-8 ("+why+"); for a URL with a raw `?q=\\xff` the id read back from the index names no entry (every request is a MISS) and never equals a new id (a `Vary: *` resource grows by one reference per request)")
+			}
+		}
+	}
+	why = ""
 	if safeFn(norm, 0) {
 		c.Pass(rule, "index-values-utf8-safe", desc, c.P.ShortName(norm)+": every returned value is validated or ASCII-encoded")
 	} else {
@@ -1272,5 +1305,56 @@ func ruleResidentTime(c *Ctx, rule string) {
 	})
 	if n == 0 {
 		c.Undecided(rule, "resident-time", desc, "no Since call in "+c.P.ShortName(ca))
+	}
+}
+
+// ruleExpiresPresence (C01.14): the heuristic lifetime applies only when NO explicit expiry is present. Whether an Expires
+// field is present is a question about the header map (a key lookup, the length of its value list), not about the value:
+// a function that reads the Expires field must not decide by comparing `Get("Expires")` with the empty string, or an
+// `Expires:` line with an empty (invalid) value counts as absent and the response is reused heuristically.
+func ruleExpiresPresence(c *Ctx, rule string) {
+	desc := "presence of Expires is decided on the header map, not by comparing its value with the empty string"
+	n := 0
+	var fns []*ssa.Function
+	for fn := range c.A.Reach {
+		fns = append(fns, fn)
+	}
+	sort.Slice(fns, func(i, j int) bool { return FuncName(fns[i]) < FuncName(fns[j]) })
+	for _, fn := range fns {
+		// the accessor that decodes the field for the freshness function (it hands out a time); other readers (the
+		// storability evaluator's "has explicit freshness information") do not feed the lifetime
+		decodes := false
+		for _, rt := range sigResults(fn) {
+			if typeIs(rt, "time", "Time") {
+				decodes = true
+			}
+		}
+		if !decodes {
+			continue
+		}
+		instrsOf(fn, func(in ssa.Instruction) {
+			bo, ok := in.(*ssa.BinOp)
+			if !ok || (bo.Op != token.EQL && bo.Op != token.NEQ) {
+				return
+			}
+			for _, pr := range [][2]ssa.Value{{bo.X, bo.Y}, {bo.Y, bo.X}} {
+				k, isK := constStr(pr[1])
+				if !isK || k != "" {
+					continue
+				}
+				call, ok := c.An.canon(pr[0]).(*ssa.Call)
+				if !ok || !callIsMethod(&call.Call, "net/http", "Header", "Get") {
+					continue
+				}
+				_, args := recvAndArgs(&call.Call)
+				if name, ok := constStr(args[0]); ok && name == "Expires" {
+					n++
+					c.Fail(rule, "expires-presence fn="+c.P.ShortName(fn), desc, c.P.InstrPos(bo)+": `Expires:` with an empty value is taken for a missing field; with a Last-Modified 1000 h in the past the response is then fresh for 100 h although it carries an explicit (invalid, i.e. expired) expiry")
+				}
+			}
+		})
+	}
+	if n == 0 {
+		c.Pass(rule, "expires-presence", desc, fmt.Sprintf("%d functions scanned: no comparison of Get(\"Expires\") with the empty string", len(fns)))
 	}
 }
